@@ -438,6 +438,18 @@ func c13Run(env *core.Env, ci any) core.Outcome {
 		if strings.Contains(r.Stderr, "load patch") {
 			return bad("variant-rejected", "the re-laid-out patch is rejected by the CLI: %s", firstWords(r.Stderr, 14))
 		}
+		// the command line's own apply loop must give the base result as well
+		switch {
+		case baseErr == "" && r.Exit != 0:
+			return bad("error-differs", "the base patch applies through the API but the CLI fails on the re-laid-out patch: %s", firstWords(r.Stderr, 14))
+		case baseErr != "" && r.Exit == 0:
+			return bad("error-differs", "the base patch fails through the API (%s) but the CLI succeeds on the re-laid-out patch", baseErr)
+		case baseErr == "":
+			cs, perr := canon.Source([]byte(r.Stdout), canon.Options{SortImports: true})
+			if perr != nil || cs != baseOut {
+				return bad("result-differs", "the re-laid-out patch gives a syntactically different result through the CLI (--print-only):\n%s", r.Stdout)
+			}
+		}
 		allowed := map[string]bool{}
 		for _, d := range c.Desc {
 			for _, l := range d {
